@@ -1,6 +1,7 @@
 import PonyVerif.Drive.Util
 import PonyVerif.Gen.Limit
 import PonyVerif.Model.Limit
+import PonyVerif.Model.Aggr
 namespace PonyVerif.Drive.C24
 open Lean PonyVerif.Py PonyVerif.Drive
 
@@ -22,5 +23,17 @@ def handle (j : Json) : Except String Json := do
       match ← a.mapM pyOfJson with
       | [n, k] => pure (jsonOfPyM (PonyVerif.Gen.queryPage n k))
       | _ => throw "page: 2 args"
+  | "aggr" =>
+      -- col: array of ints / nulls → every aggregate of Model/Aggr.lean
+      let a ← argArr j "col"
+      let col : List (Option Int) ← a.mapM (fun v => match v with
+        | .null => pure none
+        | v => do let i : Int ← fromJson? v; pure (some i))
+      pure (Json.mkObj [
+        ("count_none", toJson (PonyVerif.Model.Aggr.ponyCount col none)), ("count_false", toJson (PonyVerif.Model.Aggr.ponyCount col (some false))),
+        ("count_true", toJson (PonyVerif.Model.Aggr.ponyCount col (some true))),
+        ("sum", toJson (PonyVerif.Model.Aggr.ponySum col false)), ("sum_distinct", toJson (PonyVerif.Model.Aggr.ponySum col true)),
+        ("min", jOptInt (PonyVerif.Model.Aggr.sqlMin col)), ("max", jOptInt (PonyVerif.Model.Aggr.sqlMax col)),
+        ("distinct", toJson (PonyVerif.Model.Aggr.dedup (PonyVerif.Model.Aggr.nonNull col)))])
   | _ => throw s!"unknown op {op}"
 end PonyVerif.Drive.C24
